@@ -5,45 +5,58 @@ V = os.path.dirname(os.path.dirname(os.path.abspath(__file__)))
 ob = json.load(open(os.path.join(V, 'lean', 'obligations.json')))
 props = {json.loads(l)['id']: json.loads(l) for l in open(os.path.join(V, 'properties.jsonl'))}
 TEXT = {
- 'C01': ("Lean: Writer emission order is the specification's unit order and edge replication composes to a clamp (all cube shapes, layouts); "
-         "tie: symbolic-compressor unit table vs model, bit-exact reference image and reference encoder on every route", "8/C01"),
- 'C02': ("Lean: every loader's provenance equals the specification's address function for all geometries and in-range arguments; tie: "
-         "provenance of every element returned by the real reader (symbolic decoder) vs model and vs spec decoder", "8/C02"),
- 'C03': ("Lean: version word codec is a bijection preserving release order, gates characterised (all words, unbounded); header/footer size "
-         "equations; tie: all/seeded version words through both, spec decoder on every writer's output and compositions", "8/C03"),
- 'C04': ("Lean: classification + capture + regeneration returns every field of every trace (exhaustive/thorough; heuristic under the "
-         "property's hypothesis, with a decided counter-example without it); tie: generated SEG-Y header plans vs segyio", "8/C04"),
- 'C05': ("Lean: int32 axis codec round trip through the unsigned read + wrap for all |values| < 2^31; interval rounding lemma over Q; "
-         "tie: axis classes incl. extremes, interval sweep (thorough: all 65535 x 6)", "8/C05"),
- 'C06': ("Lean: export model composes C04/C05 facts (header i, file-header bytes, format-code field); tie: round trips vs segyio and vs the "
-         "spec decoder, IEEE exact / IBM 2^-20", "8/C06"),
- 'C07': ("Lean: on the same loader definitions as C02, fetched ranges are exactly the needed blocks, pairwise disjoint; tie: (offset,length) "
-         "sets at logging file/blob objects vs model fetch lists, needed-block predicate", "8/C07"),
- 'C08': ("Lean: inferred geometry = true axes when every line is populated; ordinal->grid map is the rank of populated positions; tie: "
-         "generated irregular surveys vs segyio and zero-filled reference image", "8/C08"),
- 'C09': ("Lean: 2D address function, 2D loaders coherent, guards; tie: 2D conversions bit-exact vs 2D reference image, symbolic reads vs "
-         "model", "8/C09"),
- 'C10': ("Lean: crop unit permutation carries Spec.addr of the source to Spec.addr of the output, refusal conditions; tie: every API view "
-         "of cropped file vs source restricted (symbolic decoder), spec conformance", "8/C10"),
- 'C11': ("Lean: window remap is a bijection onto [0,|w|) in raster order; tie: windowed SGZ byte-identical to SGZ of the windowed SEG-Y", "8/C11"),
- 'C12': ("Lean: re-block permutation: output unit at Spec.addr g64 c holds source unit Spec.addr g c for every real cell; tie: all API "
-         "views of re-blocked file vs source", "8/C12"),
- 'C13': ("Lean: emulator line-slice = model of segyio's sanitize_slice+indices+membership for all axes/slices; Python slice.indices model; "
-         "tie: expression grammar on seismic_zfp.open vs segyio.open", "8/C13"),
- 'C14': ("Lean: out-of-range arguments give index/dimensionality errors and in-range arguments address only real voxels (same Reader "
-         "definitions as C02); tie: out-of-range tuples of every class vs model and provenance oracle", "8/C14"),
- 'C15': ("Lean: memo table with arbitrary retention answers like the pure function after any history (induction over List Op); tie: "
-         "near-collision histories over several readers + emulator vs fresh reader", "8/C15"),
- 'C16': ("Lean: inductive invariant of the 3-thread/2-queue transition system for every N, capacity and schedule: safety at return, "
-         "no deadlock, exactly 7N+5 actions; tie: controlled scheduler replays in the model", "8/C16"),
- 'C17': ("Lean: fan-out buffer is independent of completion order (disjoint writes) and a checked read is all-or-error; tie: fault "
-         "injection at every read position x kind on file and blob backends", "8/C17"),
- 'C18': ("Lean: a length-checked read on a prefix file is error or equal to the complete file's; tie: crash states from captured write "
-         "logs and byte truncations x every read path", "8/C18"),
- 'C19': ("Lean: resolve = error or a Valid configuration; every valid configuration resolves to itself from each presentation; tie: the "
-         "complete valid grid + near misses + sampled grid through define_blockshape_* and tiny conversions", "8/C19"),
- 'C20': ("Lean: hash feed = serialisation of the real samples in trace order for every shape/layout (plane-set and trace-group "
-         "producers); tie: SHA-1 of source vs stored hash over routes/settings, single-sample perturbations", "8/C20"),
+ 'C01': ("Lean: the producers' emission order is the specification's unit order (whole-plane-set and per-block emission), the three "
+         "edge-replication steps compose to a clamp, composition with C02 gives write-then-read for all cube shapes/layouts/rates; "
+         "tie: per-unit source-cell table recorded by a symbolic compressor vs the model on every route; oracle: bit-exact zfpy image "
+         "and reference encoder", "8/C01, App. D"),
+ 'C02': ("Lean: every read method returns exactly the slice of the decoded volume the specification's address function defines "
+         "(all geometries, all in-range arguments, every layout branch); tie: provenance of every returned element (symbolic "
+         "decoder) vs the model; oracle: slices of read_volume() and of the spec decoder", "8/C02, App. D"),
+ 'C03': ("Lean: version word codec bijective and order preserving, gates characterised; disk-block count exact with no remainder; "
+         "footer offsets writer = reader; file length; tie: version words, container figures of real outputs; oracle: spec "
+         "decoder on every writer and composition", "8/C03, App. D"),
+ 'C04': ("Lean: classification + capture + regeneration returns every field of every trace (exhaustive/thorough unconditionally; "
+         "heuristic under the property's hypothesis, with decided counter-examples without it); tie: table bytes vs model; oracle: "
+         "segyio on the source", "8/C04, App. D"),
+ 'C05': ("Lean: int32 axis round trip through unsigned read, int64 arithmetic and wrap for all starts/steps/counts; interval "
+         "rounding lemma over Q (A4); tie: stored words and reader axes vs model; oracle: segyio axes, interval sweep", "8/C05, App. D"),
+ 'C06': ("Lean: export format field, file-header identity, exported headers equal the source's (via C04), trace order; tie: format "
+         "decision incl. unknown codes; oracle: round trips vs segyio and the spec decoder (IEEE exact / IBM 2^-20)", "8/C06, App. D"),
+ 'C07': ("Lean: for every read path the 4 KiB blocks touched are exactly the blocks holding requested samples and the range reads "
+         "are pairwise disjoint (same loader definitions as C02); tie: (offset,length) sets at logging file/blob objects vs model; "
+         "oracle: needed-block predicate, open/header/preload counts", "8/C07, App. D"),
+ 'C08': ("Lean: inferred axis = true axis when every line is populated; ordinal->grid map = source order; inline-0 witness; tie: "
+         "inferRange / populated vs header and reader mask; oracle: source traces/headers, zero-filled image", "8/C08, App. D"),
+ 'C09': ("Lean: 2D address function, loaders, guards, 2D emission order and edge replication, write-then-read; tie: 2D reads and "
+         "2D writer/hash feed vs model; oracle: 2D zfpy image bit-exact", "8/C09, App. D"),
+ 'C10': ("Lean: the copied units are the address map of the sub-cube in every layout, positions preserved, bounds widened outward "
+         "and clipped, refusal conditions; tie: box and copied-unit list vs real cropper; oracle: every API view of the crop", "8/C10, App. D"),
+ 'C11': ("Lean: window fill = sub-cube fill, header slots in window raster order (bijection), detection traces; tie: slot table "
+         "vs stored arrays; oracle: byte identity with the SGZ of the windowed SEG-Y, both readers", "8/C11, App. D"),
+ 'C12': ("Lean: every real voxel keeps its source unit under re-blocking, output geometry valid, unsupported inputs refused; tie: "
+         "unit list of the real output; oracle: every API view vs source", "8/C12, App. D"),
+ 'C13': ("Lean: emulator line slices = segyio's resolution for all key sets/slices; ordinal slices stay in range; negative "
+         "ordinals; tie: model vs CPython slice.indices/range, vs accessors and vs segyio.Line.ranges; oracle: expression grammar "
+         "on seismic_zfp.open vs segyio.open", "8/C13, App. D"),
+ 'C14': ("Lean: out-of-range arguments give index/dimensionality errors for every method and arbitrary integers; with C02 "
+         "in-range results address real voxels only; tie/oracle: out-of-range tuples of every class", "8/C14, App. D"),
+ 'C15': ("Lean: cache state machine (class-level loader slots, per-reader chunk LRU, preload, close): every call of every history "
+         "returns the fresh reader's array (inductive invariant); tie: per-call outcome, digest and range reads of real histories; "
+         "oracle: near-collision histories incl. emulator", "8/C15, App. D"),
+ 'C16': ("Lean: inductive invariant of the 3-thread/2-queue transition system for every N, capacity and schedule: safety at "
+         "return, no deadlock, exactly 7N+5 actions; tie: controlled scheduler replays in the model; oracle: bytes vs sequential "
+         "run with lazy compression", "8/C16, App. D"),
+ 'C17': ("Lean: any program over length-checked range reads under any fault plan raises or returns the fault-free value; a fault "
+         "at an issued read raises; fan-out buffer independent of completion order; tie: fetch sequences and fault verdicts; "
+         "oracle: every position x kind, file and blob", "8/C17, App. D"),
+ 'C18': ("Lean: any program over length-checked range reads on a byte prefix (or with a pending patch in an unused region) "
+         "raises or agrees with the complete file; explicit verdict for model read calls; tie: truncation verdicts on crash "
+         "states; oracle: captured write logs and truncations x all read paths", "8/C18, App. D"),
+ 'C19': ("Lean: resolve = error or a Valid configuration (soundness); every valid configuration resolves to itself from each "
+         "presentation (completeness); Valid implies the geometry hypotheses of C01-C03; tie: whole valid grid + near misses; "
+         "oracle: tiny conversions", "8/C19, App. D"),
+ 'C20': ("Lean: the stream fed to the hash is exactly the real samples in trace order for every shape/layout, 3D and 2D; tie: "
+         "logged hash updates vs model on every route; oracle: SHA-1 of the source, perturbations, re-block", "8/C20, App. D"),
 }
 checks = []
 for pid in sorted(props):
@@ -62,8 +75,9 @@ for pid in sorted(props):
                       '/repo only by the differential correspondence and direct oracle run by this check; harness generators, symbolic '
                       'codec and spec codec; assumptions A1-A5 of DESIGN.md section 7 (zfpy cellwise coding, segyio/pyvds/pyzgy, CPython '
                       'queue/hashlib, binary64, OS prefix semantics).',
-        'technique': 'Lean 4 theorems over a hand-written executable model + differential correspondence (model driver vs real code) '
-                     '+ direct oracle for failing-input search',
+        'technique': 'machine-checked proof in Lean 4 (theorems over a hand-written executable model, kernel-checked, axioms audited '
+                     'each run) + differential correspondence of the compiled model driver with the real code + direct oracle '
+                     'on the real code as failing-input search',
     })
 m = {
  'version': 1,
